@@ -58,6 +58,9 @@ def gen(rng, k):
                 # an application-defined CA class with a permissive acceptance filter: without an address it still neither
                 # calls back nor answers
                 cas[-1]['accept_all'] = True
+            elif rng.random() < 0.3:
+                # an application-defined CA class that overrides on_request() and registers that method itself
+                cas[-1]['own_hook'] = True
             meta.append(dict(stack=s, ca=j, phase=phase, addr=a, reqs=reqs, name=cas[-1]['name'] & ~(1 << 48)))
             cid += 10
             if phase == 'wait':
@@ -117,7 +120,7 @@ def gen(rng, k):
         t = 1_000_000 + rng.randint(2000, 200000)
         pgn = rng.choice([0xEE00, 0xFECA, 0xFEDA, 0, 0x3FFFF, 0x1FFFF, 0x10000, rng.getrandbits(18),
                           0xEE01, 0xEEFF, 0xEE00 + rng.randrange(256), 0x2EE00, 0x1EE00 + rng.randrange(256)])   # neighbours of the address-claim PGN
-        dest = rng.choice(owned + owned + [255, 255, rng.choice([x for x in range(254) if x not in used])])
+        dest = rng.choice(owned + owned + [255, 255, rng.choice([x for x in range(254) if x not in used]), 254])      # (254: the null address is nobody's)
         dp = rng.choice([0, 0, 0, 1])
         if not req_has_addr:
             pgn = rng.choice([0xEE00, 0xEE00, 0xFECA])
